@@ -64,7 +64,7 @@ def classify(line, p, mine):
 
 
 def nontrivial(p, line):
-    return bool(p["outcome"] == "ok" and magpipe.seg(line, "tsteps") != "none")
+    return bool(p["outcome"] == "ok" and magpipe.seg(line, "tsteps") != "none" and magpipe.seg(line, "tvariant") != "cant")
 
 
 def run(tier, seed):
